@@ -213,6 +213,8 @@ class Env:
                 e.vars[k] = list(v)
             elif isinstance(v, dict):
                 e.vars[k] = dict(v)
+            elif isinstance(v, DatasetVal):
+                e.vars[k] = v.copy()
         e.pathcond = self.pathcond
         e.loopvars = list(self.loopvars)
         return e
@@ -468,8 +470,18 @@ class Interp:
             return tuple(self.merge_values(c, x, y) for x, y in zip(a, b))
         if isinstance(a, list) and isinstance(b, list) and len(a) == len(b):
             return [self.merge_values(c, x, y) for x, y in zip(a, b)]
-        if isinstance(a, dict) and isinstance(b, dict) and a.keys() == b.keys():
-            return {k: self.merge_values(c, a[k], b[k]) for k in a}
+        if isinstance(a, dict) and isinstance(b, dict):
+            out = {}
+            for k in list(a.keys()) + [k for k in b.keys() if k not in a]:
+                if k in a and k in b:
+                    out[k] = self.merge_values(c, a[k], b[k])
+                elif k in a:
+                    out[k] = op("guarded", to_term(c), to_term(a[k]))
+                else:
+                    out[k] = op("guarded", NOT(c), to_term(b[k]))
+            return out
+        if isinstance(a, DatasetVal) and isinstance(b, DatasetVal):
+            return DatasetVal(self.merge_values(c, a.items, b.items))
         try:
             if type(a) is type(b) and a == b:
                 return a
@@ -574,6 +586,8 @@ class Interp:
                 return
             base.fields[attr] = value
             return
+        if is_term(base) and attr in ("name", "attrs", "index", "encoding"):
+            return  # metadata only; not part of the term language
         self.note_unknown(f"attribute store {attr} on {type(base).__name__}", node, env)
 
     # ------------------------------------------------------------------ subscripts
@@ -884,7 +898,10 @@ class Interp:
         if isinstance(container, DatasetVal):
             key = T.str_of(item) if (isinstance(item, str) or T.is_str_symbol(item)) else item
             if isinstance(key, str):
-                return key in container.items
+                if key in container.items:
+                    return True
+                if all(isinstance(k, str) for k in container.items):
+                    return False
             return op("contains", container.as_term(), to_term(item))
         if isinstance(container, Obj):
             m = container.cls.find_method("__contains__")
@@ -1473,6 +1490,8 @@ class Interp:
                 benv.vars[n] = s
             elif isinstance(v, (list, dict)):
                 benv.vars[n] = copy.copy(v)
+            elif isinstance(v, DatasetVal):
+                benv.vars[n] = v.copy()
         # loop variable(s)
         itt = to_term(it)
         tnames = [x.id for x in ast.walk(st.target) if isinstance(x, ast.Name)]
@@ -1512,9 +1531,16 @@ class Interp:
             orig = pre[n]
             fin = final_env.vars.get(n, MISSING)
             if n not in carried_syms:
-                if isinstance(orig, (list, dict)):
+                if isinstance(orig, dict) and isinstance(fin, dict) and all(
+                        (k in fin and (fin[k] is orig[k] or fin[k] == orig[k])) for k in orig):
+                    # entries added per iteration stay as a family keyed by a term over the loop variable
+                    orig.update({k: v for k, v in fin.items() if k not in orig})
+                    env.vars[n] = orig
+                elif isinstance(orig, (list, dict)):
                     env.vars[n] = self.note_unknown(f"python container {n} mutated in symbolic loop", st, env) \
                         if fin != orig else orig
+                elif isinstance(orig, DatasetVal) and isinstance(fin, DatasetVal):
+                    env.vars[n] = fin
                 else:
                     env.vars[n] = fin if fin is not MISSING else orig
                 continue
@@ -1533,8 +1559,10 @@ class Interp:
         subs = {}
         for n, s in carried_syms.items():
             newv = env.vars.get(n)
-            if is_term(newv) and fname(newv) in ("loopsum", "loopsum_brk"):
-                subs[s] = op("loopprefix", newv.args[0], newv.args[1], lv)
+            ls = [x for x in (T.find_ops(newv, "loopsum") + T.find_ops(newv, "loopsum_brk"))
+                  if len(x.args) == 3 and x.args[1] == lv] if is_term(newv) else []
+            if is_term(newv) and len(ls) == 1 and is_term(pre[n]) and sp.expand(newv - pre[n] - ls[0]) == 0:
+                subs[s] = pre[n] + op("loopprefix", ls[0].args[0], lv)
             elif is_term(newv):
                 subs[s] = op("loopstate", to_term(pre[n]), lv, Str(n))
         if subs:
@@ -1564,10 +1592,18 @@ class Interp:
         # accumulation: fin = s + E (possibly under ite)
         inc = self.as_increment(fin, s)
         if inc is not None:
-            return op("loopsum_brk" if has_break else "loopsum", orig, inc, lv, itt)
+            return orig + op("loopsum_brk" if has_break else "loopsum", inc, lv, itt)
         st_ = self.as_store(fin, s)
         if st_ is not None:
             idx, val = st_
+            # element accumulation: a[idx] += E with idx independent of this loop
+            cur = op("item", s, idx)
+            if lv not in idx.free_symbols and cur in val.atoms(sp.Function):
+                e = sp.expand(val - cur)
+                if s not in e.free_symbols:
+                    acc = self.lib.term_getitem(self, orig, idx, None, None) + op(
+                        "loopsum_brk" if has_break else "loopsum", val - cur, lv, itt)
+                    return self.lib.term_setitem(self, orig, idx, acc, None, None)
             return op("tabulate", orig, idx, val, lv)
         return op("loopfix", orig, fin, lv, s)
 
